@@ -12,14 +12,15 @@ type Cursor struct {
 	debug      bool
 	startBound uint64
 	endBound   uint64
+	bounded    bool // Distinguishes an empty bounded range from an unbounded cursor
 }
 
 func NewBoundedCursor(reader io.ReaderAt, start, end uint64) *Cursor {
-	return &Cursor{File: reader, startBound: start, endBound: end}
+	return &Cursor{File: reader, startBound: start, endBound: end, bounded: true}
 }
 
 func (c *Cursor) Move(offset int64) {
-	if c.endBound != 0 {
+	if c.bounded {
 		if offset < int64(c.startBound) {
 			panic(fmt.Sprintf("cursor move to %d before start bound %d", offset, c.startBound))
 		}
@@ -34,7 +35,7 @@ func (c *Cursor) Move(offset int64) {
 
 // Read implements io.Reader.
 func (c *Cursor) Read(p []byte) (n int, err error) {
-	if c.endBound != 0 {
+	if c.bounded {
 		if c.offset >= int64(c.endBound) {
 			return 0, io.EOF
 		}
